@@ -503,6 +503,14 @@ func c19ToRFC3339(c *core.Ctx, r *core.Rand) {
 	in := c19Instant(c, r, c19Locs[zone])
 	str, in := renderSmart(c, r, in, zone)
 	fromTZ, toTZ := optZone(c, r), optZone(c, r)
+	if r.Chance(1, 4) {
+		if r.Bool() {
+			customfuncs.DateTimeToRFC3339(nil, str.s, c19PickZone(c, r, false), toTZ)
+		} else {
+			customfuncs.DateTimeToRFC3339(nil, str.s, fromTZ, c19PickZone(c, r, false))
+		}
+		c.Inc("checked_call_preceded_by_a_call_differing_in_one_argument")
+	}
 	out, err := customfuncs.DateTimeToRFC3339(nil, str.s, fromTZ, toTZ)
 	args := []string{str.s, fromTZ, toTZ}
 	c19Observe(c, "dateTimeToRFC3339", str, fromTZ, toTZ, zone, in)
@@ -593,6 +601,14 @@ func c19ToEpoch(c *core.Ctx, r *core.Rand) {
 	str, in := renderSmart(c, r, in, zone)
 	fromTZ := optZone(c, r)
 	unit := r.Pick("SECOND", "MILLISECOND")
+	if r.Chance(1, 4) {
+		if r.Bool() {
+			customfuncs.DateTimeToEpoch(nil, str.s, c19PickZone(c, r, false), unit)
+		} else {
+			customfuncs.DateTimeToEpoch(nil, str.s, fromTZ, map[string]string{"SECOND": "MILLISECOND", "MILLISECOND": "SECOND"}[unit])
+		}
+		c.Inc("checked_call_preceded_by_a_call_differing_in_one_argument")
+	}
 	out, err := customfuncs.DateTimeToEpoch(nil, str.s, fromTZ, unit)
 	args := []string{str.s, fromTZ, unit}
 	c19Observe(c, "dateTimeToEpoch/"+unit, str, fromTZ, "", zone, in)
@@ -788,6 +804,18 @@ func c19Layout(c *core.Ctx, r *core.Rand) {
 	layoutTZ := strconv.FormatBool(lay.tz)
 	if !lay.tz && r.Chance(1, 4) {
 		layoutTZ = "" // documented default
+	}
+	if r.Chance(1, 3) {
+		// a preceding call that differs in one argument only: its result is discarded, it must not influence the checked call
+		switch r.Intn(3) {
+		case 0:
+			customfuncs.DateTimeLayoutToRFC3339(nil, str.s, lay.layout, strconv.FormatBool(!lay.tz), fromTZ, toTZ)
+		case 1:
+			customfuncs.DateTimeLayoutToRFC3339(nil, str.s, lay.layout, layoutTZ, c19PickZone(c, r, false), toTZ)
+		default:
+			customfuncs.DateTimeLayoutToRFC3339(nil, str.s, lay.layout, layoutTZ, fromTZ, c19PickZone(c, r, false))
+		}
+		c.Inc("checked_call_preceded_by_a_call_differing_in_one_argument")
 	}
 	out, err := customfuncs.DateTimeLayoutToRFC3339(nil, str.s, lay.layout, layoutTZ, fromTZ, toTZ)
 	args := []string{str.s, lay.layout, layoutTZ, fromTZ, toTZ}
